@@ -15,7 +15,7 @@ def generate(ck, prop, tier, seed, map_entries=2):
     one = {"MaxMapEntries": map_entries}
     mc = vlib.must_hold(vlib.tlc("ThriftWire", "MC_ThriftWire.cfg", workers=8, defines=one), "ThriftWire invariants (1 field)")
     ck.add_mc(mc, "MC_ThriftWire")
-    # multi-field layouts: exhaustive within a seeded subset of types and ids; the thorough tier takes four subsets
+    # multi-field layouts: exhaustive within a seeded subset of types and ids; the thorough tier takes six subsets
     # (three fields at once: 1.6 M layouts x values for 4 types - measured - so more subsets of two fields instead)
     vec = vlib.vecpath(prop, "gen")
     subsets = []
@@ -23,9 +23,9 @@ def generate(ck, prop, tier, seed, map_entries=2):
         g1 = vlib.must_hold(vlib.tlc("ThriftWire", "Gen_ThriftWire.cfg", workers=8, sink=sink, defines=one), "generation (1 field)")
         ck.add_mc(g1, "Gen_ThriftWire(1 field, all types, all ids)")
         ck.notes["first_part"] = g1.vectors
-        for round_ in range(4 if thorough else 1):
+        for round_ in range(6 if thorough else 1):
             rnd = random.Random(seed + 1000 * round_)
-            types = sorted(rnd.sample(ALL_TYPES, 4 if thorough else 3))
+            types = sorted(rnd.sample(ALL_TYPES, 3))   # (4 types with two-entry maps: over 2 GiB of vectors - measured)
             if "BOOL" not in types:
                 types[0] = "BOOL"      # bools interact with deltas in the compact field header: always in
             # always in: 1 and 70 (an id range wider than one bitmap word), 16 and 17 (a long-form header followed by a short delta)
@@ -36,8 +36,9 @@ def generate(ck, prop, tier, seed, map_entries=2):
                                      "ThriftWire invariants (multi-field)")
                 ck.add_mc(mc2, "MC_ThriftWire(multi)")
             g2 = vlib.must_hold(vlib.tlc("ThriftWire", "Gen_ThriftWire.cfg", workers=vlib.NCPU, sink=sink, defines=multi,
-                                         tag="ThriftWire-gen2", timeout=3000), "generation (multi-field)")
-            ck.add_mc(g2, "Gen_ThriftWire(2 fields, types %s, ids %s)" % (",".join(sorted(set(types))), sorted(set(ids))))
+                                         tag="ThriftWire-gen2", timeout=3000, max_vectors=400000), "generation (multi-field)")
+            ck.add_mc(g2, "Gen_ThriftWire(2 fields, types %s, ids %s%s)" % (",".join(sorted(set(types))), sorted(set(ids)),
+                                                                            ", the first %d in breadth-first order (budget: 400000 vectors / 1 GiB)" % g2.vectors if getattr(g2, "truncated", False) else ""))
             subsets.append({"types": sorted(set(types)), "ids": sorted(set(ids))})
     ck.notes["subsets"] = subsets
     return vec
